@@ -131,7 +131,8 @@ def run_mutants(prop, spec, repo, infos, C, defs, classes, LEMMAS):
 
 
 def modetag(v):
-    if isinstance(v, dict): return ','.join('%s=%s' % kv for kv in sorted(v.items()))
+    if isinstance(v, dict): return ','.join(('%s=%s' % kv) if isinstance(kv[1], str) else str(kv[0]) for kv in sorted(v.items()))
+    if isinstance(v, (set, frozenset, list, tuple)): return 'inlined:' + '+'.join(sorted(str(x).split('.')[-1] for x in v))
     return str(v)
 
 
